@@ -57,7 +57,7 @@ def scenes(ctx, rnd):
     allf = ["one", "two", "polyline", "four", "thin", "faces", "compl"]
     # (G, families, number of faces, steps, prove the local rules on every case)
     if q:
-        plan = [(3, allf, 2, [1, 8], True), (4, ["two", "polyline", "faces", "compl"], 2, [1, 5], False), (5, ["two", "polyline", "compl"], 1, [1], False)]
+        plan = [(3, allf, 1, [1, 8], True), (4, ["two", "polyline", "faces", "compl"], 1, [1, 5], False), (5, ["two", "compl"], 1, [1], False)]
     else:
         plan = [(2, allf, 6, [1, 2], True), (3, allf, 6, [1, 3, 8], True), (3, allf, 3, [1, 2], True),
                 (4, allf, 6, [1, 5], False), (4, allf, 2, [1, 2, 16], True), (5, allf, 3, [1, 7], False), (5, ["two", "four"], 2, [1], False)]
@@ -70,12 +70,41 @@ def scenes(ctx, rnd):
     ctx.replay(cases)
 
 
+def lattice(ctx, rnd):
+    """(iii) lattice scenes: edges spanning several faces, degenerate query edges."""
+    q = ctx.quick()
+    inv = ["ExactlyOnce", "ValidBackwards", "CrossSymmetric", "Emit"]
+    cases = []
+    for n, k, maxlen, total in ([(1, 8, 5, 26)] if q else [(1, 12, 5, 26), (2, 9, 5, 98), (2, 9, 5, 98)]):
+        sub = set(rnd.sample(range(1, total + 1), k))
+        probes = set(range(1, 27)) if n == 1 else sub | set(rnd.sample(range(1, total + 1), 30))
+        r = ctx.tlc("Gen_InLoop", vlib.cfg(constants={"N": n, "SubIdx": sub, "ProbeIdx": probes, "MaxLen": maxlen,
+                                                       "Op": '"c06lattice"', "NQ": 12}, invariants=inv),
+                    workers=12, timeout=2400)
+        cases += r.tagged.get("CASE", [])
+    if q and len(cases) > 600:
+        cases = rnd.sample(cases, 600)
+    ctx.log("lattice scenes: %d" % len(cases))
+    ctx.replay(cases, timeout=1800)
+
+
 def run(ctx):
     rnd = random.Random(ctx.seed)
     ctx.rule = ("(i) every abstract shape (kind x chain-length vector x nesting) within the bounds, enumerated by TLC; "
-                "non-trivial: more than one chain, a closed chain or an empty/full special shape")
+                "non-trivial: more than one chain, a closed chain or an empty/full special shape. "
+                "(ii) grid-world scenes of 1..4 shapes (polygons with holes, complements, loops, polylines along and across grid "
+                "lines, point sets; sharing vertices/edges; on one or two faces) spanned by a seed-chosen window at G=2..5, "
+                "every scene of the enumerated families; non-trivial: more than 27 edges (index path of CrossingEdgeQuery) or several shapes")
     ctx.assumptions += [
         "shape accessors are called on their documented domain only (edge ids < NumEdges, chain ids < NumChains, offsets < chain length)",
+        "W2: grid edges are great-circle arcs (u=const / v=const planes); Cell.Vertex corners are bit-identical for the cells sharing them",
+        "an edge must be listed in every index cell (level <= G+2) whose closed square it meets; unit diagonals: the cell they lie in and the cells around their endpoints",
+        "ContainsCell may conservatively be false for a cell inside the region whose closed square touches the boundary (class 2); IntersectsCell must be true whenever an edge meets the closed cell",
+        "query segments between probes lie on u=const or v=const lines: crossings with grid edges are decided by integer comparison; a unit diagonal met inside its own cell is not predicted",
+        "points on a boundary that are not vertices of the shape: no prediction, index = brute force only",
+        "(iii) lattice scenes on the unit embedding: model answers used only when every deciding determinant is non-zero; index = code's brute force always",
+        "a brute-force reference segment between exactly antipodal points is not an S2 edge: such point/shape pairs are skipped",
     ]
     shapes(ctx)
     scenes(ctx, rnd)
+    lattice(ctx, rnd)
